@@ -207,8 +207,8 @@ Definition spec_C14 (c : c14case) (obs : list Z) : bool :=
 (* classes of inputs on which the current tree is known to violate the property (open findings of
    known_findings.d/C14.json), each as narrow as the defect.  Classes 1-4 (null on a nullable Json
    field, empty verifying key, keyword / digit-first aliases, json selector with a default) were
-   repaired by 8ac9d00, b4e6381, 601cdc3, classes 9-10 (ConnectionInfo length, dates beyond the calendar) by
-   feffa39, 8b3434e: their witnesses are ordinary cases now and must pass. *)
+   repaired by 8ac9d00, b4e6381, 601cdc3, classes 9-11 (ConnectionInfo length, dates beyond the calendar,
+   peer user row without `enabled`) by feffa39, 8b3434e, 86aa554: their witnesses are ordinary cases now and must pass. *)
 
 Fixpoint has_nn (c : cfield) : bool :=
   match c with CSub _ _ nl subs => negb nl || existsb has_nn subs | _ => false end.
@@ -219,7 +219,6 @@ Fixpoint nn_nested (c : cfield) : bool :=
 
 (* 5: blank search text; 6: selection paths beyond the engine's parser stack;
    7: nested non-nullable references (each level is compiled twice);
-   11: a peer's user row without `enabled` is stored and the instance cannot start any more;
    8: in an aggregate selection, a WHERE filter written on the selected json value (its name is a
       reference field or only the alias of a selected field) *)
 Definition k5_entity (c : centity) : bool := negb (search_ok c).
@@ -239,7 +238,6 @@ Definition known_C14 (c : c14case) : list Z :=
       | Some ce => flag 7 (k7_entity ce)
       | None => [] end
   | CAgg q => flag 5 (search_blank q) ++ flag 8 (value_filter_on_aggregate q)
-  | CRoomDef m v => flag 11 (negb (restart_succeeds m v))
   | _ => []
   end.
 
